@@ -59,7 +59,7 @@ def gen_config(rng, n, with_source=False):
     if rng.chance(1, 8):
         v = rng.choice([3079, 3696, 4095, 4096, 65535] if not clean else [3079, 3696, 4095]); j["max_pq"] = v; c.append("max=%d" % v); pf()
     if rng.chance(1, 8):
-        v = [rng.choice([1000, 4000, 10000, 10001] if not clean else [1000, 4000, 10000]), rng.choice([1, 50, 10001] if not clean else [1, 50]), rng.below(10001), rng.below(10001)]
+        v = [rng.choice([1000, 4000, 10000, 10001] if not clean else [1000, 4000, 10000]), rng.choice([1, 50, 10, 11, 49, 10001] if not clean else [1, 50, 10, 11, 49]), rng.below(10001), rng.below(10001)]
         j["level6"] = dict(zip(["max_display_mastering_luminance", "min_display_mastering_luminance",
                                 "max_content_light_level", "max_frame_average_light_level"], v))
         c.append("l6=" + ":".join(map(str, v))); pf()
